@@ -147,7 +147,162 @@ def contracts(T: Types, reg: Registry, ctx):
 
 
 def lemmas(T, reg, ctx):
-    return []
+    return [reader_entry_points, exception_codec_stateless]
+
+
+def exception_codec_stateless(ctx):
+    """Purity obligation over the real AST: rebuilding the exception of a FAILED invocation (BaseStateBackend.deserialize_exception ->
+    PynencError.from_json -> _from_json_dict) is a function of the stored string and of the exception classes that exist now; it keeps
+    no process-wide table that an earlier read could have frozen (no class-level or module-level container, no assignment to a class
+    attribute or global on this path)."""
+    import ast
+    from pyvc.solve import Obligation
+    EX, SB = "pynenc.exceptions", "pynenc.state_backend.base_state_backend"
+    bad = []
+    mod = ctx.src.module(EX)
+    for node in mod.tree.body:                                   # module-level containers in exceptions.py
+        if isinstance(node, (ast.Assign, ast.AnnAssign)) and isinstance(getattr(node, "value", None), (ast.Dict, ast.List, ast.Set, ast.Call)):
+            tg = node.targets[0] if isinstance(node, ast.Assign) else node.target
+            v = node.value
+            fname = v.func.id if isinstance(v, ast.Call) and isinstance(v.func, ast.Name) else v.func.attr if isinstance(v, ast.Call) and isinstance(v.func, ast.Attribute) else ""
+            if isinstance(tg, ast.Name) and fname not in ("TypeVar", "getLogger"):
+                bad.append(f"exceptions.py line {node.lineno}: module-level object {tg.id}")
+    classes = [n for n in mod.tree.body if isinstance(n, ast.ClassDef)]
+    for cls in classes:
+        for node in cls.body:                                    # class-level containers of the exception classes
+            if isinstance(node, (ast.Assign, ast.AnnAssign)) and isinstance(getattr(node, "value", None), (ast.Dict, ast.List, ast.Set, ast.Call, ast.DictComp, ast.ListComp)):
+                tg = node.targets[0] if isinstance(node, ast.Assign) else node.target
+                bad.append(f"{cls.name} line {node.lineno}: class-level object {getattr(tg, 'id', '?')} shared by the whole process")
+        for fn in [n for n in cls.body if isinstance(n, (ast.FunctionDef, ast.AsyncFunctionDef))]:
+            if fn.name not in ("from_json", "_from_json_dict", "to_json", "_to_json_dict") and not fn.name.startswith("_get"):
+                continue
+            for node in ast.walk(fn):
+                if isinstance(node, (ast.Assign, ast.AugAssign, ast.AnnAssign)):
+                    for t in (node.targets if isinstance(node, ast.Assign) else [node.target]):
+                        root = t
+                        while isinstance(root, (ast.Attribute, ast.Subscript)):
+                            root = root.value
+                        if isinstance(t, (ast.Attribute, ast.Subscript)) and isinstance(root, ast.Name) and (root.id == "cls" or root.id[:1].isupper()):
+                            bad.append(f"{cls.name}.{fn.name} line {node.lineno}: assigns a class attribute ({ast.unparse(t)[:40]})")
+                if isinstance(node, ast.Global):
+                    bad.append(f"{cls.name}.{fn.name} line {node.lineno}: global statement")
+    try:
+        sbc = ctx.src.klass(SB, "BaseStateBackend")
+        for fn in [n for n in sbc.body if isinstance(n, ast.FunctionDef) and n.name in ("serialize_exception", "deserialize_exception")]:
+            for node in ast.walk(fn):
+                for t in ((node.targets if isinstance(node, ast.Assign) else [node.target]) if isinstance(node, (ast.Assign, ast.AugAssign)) else []):
+                    root = t
+                    while isinstance(root, (ast.Attribute, ast.Subscript)):
+                        root = root.value
+                    if isinstance(t, (ast.Attribute, ast.Subscript)) and isinstance(root, ast.Name) and (root.id in ("self", "cls") or root.id[:1].isupper()):
+                        bad.append(f"BaseStateBackend.{fn.name} line {node.lineno}: writes object state ({ast.unparse(t)[:40]})")
+    except Exception as e:      # noqa: BLE001
+        bad.append(f"BaseStateBackend not found: {e}")
+    pe = [c for c in classes if c.name == "PynencError"]
+    if not pe or "from_json" not in [n.name for n in pe[0].body if isinstance(n, ast.FunctionDef)]:
+        bad.append("PynencError.from_json not found")
+    ok = not bad
+    o = Obligation(name=f"{PID}/purity/exception-codec/rebuilding-a-stored-exception-keeps-no-process-wide-state", kind="lemma", pc=[], goal=z3.BoolVal(ok),
+                   function=f"{EX}:PynencError.from_json")
+    o.status, o.backend, o.detail = ("discharged" if ok else "failed"), "ast-scan", " | ".join(bad)[:500]
+    return [o]
+
+
+def exception_class_histories(ctx):
+    """Bounded: exception classes come into existence while the process runs.  A task fails with an exception class, a reader asks for the
+    result; then a new class (a PynencError subclass, a plain Exception subclass) is defined in a module imported later, a task fails with it,
+    the reader asks again: same type, same arguments, every time, on both backends."""
+    import sys
+    import types
+    from pyvc.prop import BoundedResult
+    from pynenc import exceptions as ex
+    from pynenc.invocation.status import InvocationStatus as S
+    from . import verif_tasks as vt
+    from .realapp import new_invocation, real_app, runner_ctx
+    res = BoundedResult("exception_class_histories", "FAILED invocations read back on both backends: an existing PynencError subclass, a plain exception, then classes "
+                        "defined after the first reads (PynencError subclass, subclass of a subclass, plain Exception subclass) in a module imported later")
+    n = 0
+    for backend in ("mem", "sqlite"):
+        with real_app(backend) as app:
+            B = runner_ctx("runner-B")
+            late = types.ModuleType(f"verif_late_errors_{backend}_{id(app) % 10000}")
+            sys.modules[late.__name__] = late
+
+            def fail_and_read(exc):
+                inv = new_invocation(app, vt.add, x=1, y=2)
+                list(app.orchestrator.get_invocations_to_run(1, B))
+                app.orchestrator.set_invocation_status(inv.invocation_id, S.RUNNING, B)
+                app.orchestrator.set_invocation_exception(inv, exc, B)
+                reader = app.state_backend.get_invocation(inv.invocation_id)
+                try:
+                    return ("value", reader.result)
+                except Exception as e:      # noqa: BLE001
+                    return ("raised", type(e).__name__, type(e).__module__, getattr(e, "args", None), getattr(e, "__dict__", {}))
+            steps = [("existing PynencError subclass", lambda: ex.RetryError("again")),
+                     ("plain exception", lambda: vt.Other("boom", 1))]
+
+            def define(name, base, mod=late):
+                cls = type(name, (base,), {"__module__": mod.__name__})
+                setattr(mod, name, cls)
+                return cls
+            steps += [("PynencError subclass defined after the first reads", lambda: define("LateError", ex.PynencError)("late", 2)),
+                      ("subclass of a subclass defined later", lambda: define("LaterRetry", ex.RetryError)("later")),
+                      ("plain Exception subclass defined later", lambda: define("LatePlain", Exception)("plain", 3))]
+            for label, make in steps:
+                n += 1
+                try:
+                    exc = make()
+                    got = fail_and_read(exc)
+                except Exception as e:      # noqa: BLE001
+                    got = ("harness-error", type(e).__name__, str(e)[:100])
+                    exc = None
+                ok = exc is not None and got[0] == "raised" and got[1] == type(exc).__name__ and tuple(got[3] or ()) == tuple(exc.args)
+                if not ok and len(res.failures) < 8:
+                    res.failures.append({"what": f"{backend}: {label}: the body raised {type(exc).__name__}{getattr(exc, 'args', None)}, the reader got {str(got)[:200]}",
+                                         "input": {"backend": backend, "step": label}, "finding_key": f"{backend}:exception-class"})
+            sys.modules.pop(late.__name__, None)
+    res.cases = n
+    res.distinct = n
+    res.samples = [{"step": "PynencError subclass defined after the first reads"}]
+    return res
+
+
+def reader_entry_points(ctx):
+    """Structural obligation over the real AST: every way a caller obtains an outcome from a DistributedInvocation goes through
+    get_final_result (the contracted reader, which checks the status first).  `result` / `async_result` return nothing but
+    `self.get_final_result()`, and no other method of the invocation classes reads results or exceptions from the state backend."""
+    import ast
+    from pyvc.solve import Obligation
+    bad, checked = [], []
+    for clsname in ("DistributedInvocation", "DistributedInvocationGroup"):
+        try:
+            cls = ctx.src.klass(DI, clsname)
+        except Exception:      # noqa: BLE001
+            bad.append(f"class {clsname} not found")
+            continue
+        for fn in [n for n in cls.body if isinstance(n, (ast.FunctionDef, ast.AsyncFunctionDef))]:
+            checked.append(f"{clsname}.{fn.name}")
+            for node in ast.walk(fn):
+                if isinstance(node, ast.Attribute) and node.attr in ("get_result", "get_exception", "_get_result", "_get_exception") and fn.name != "get_final_result":
+                    bad.append(f"{clsname}.{fn.name} line {node.lineno}: reads .{node.attr} outside get_final_result (no status check in front of it)")
+            if clsname == "DistributedInvocation" and fn.name in ("result", "async_result"):
+                rets = [n for n in ast.walk(fn) if isinstance(n, ast.Return)]
+                for r in rets:
+                    v = r.value
+                    ok = isinstance(v, ast.Call) and isinstance(v.func, ast.Attribute) and v.func.attr == "get_final_result" and \
+                        isinstance(v.func.value, ast.Name) and v.func.value.id == "self" and not v.args and not v.keywords
+                    if not ok:
+                        bad.append(f"DistributedInvocation.{fn.name} line {r.lineno}: returns something else than self.get_final_result()")
+                if not rets:
+                    bad.append(f"DistributedInvocation.{fn.name}: no return")
+    need = {"DistributedInvocation.result", "DistributedInvocation.async_result", "DistributedInvocation.get_final_result"}
+    missing = sorted(need - set(checked))
+    ok = not bad and not missing
+    o = Obligation(name=f"{PID}/structure/DistributedInvocation/every-outcome-is-read-through-get_final_result", kind="lemma", pc=[], goal=z3.BoolVal(ok),
+                   function=f"{DI}:DistributedInvocation.result")
+    o.status, o.backend, o.detail = ("discharged" if ok else "failed"), "ast-scan", " | ".join(bad + [f"missing {m}" for m in missing])[:500]
+    o.extra = {"methods_scanned": len(checked)}
+    return [o]
 
 
 def reader_between_effects(ctx):
@@ -176,12 +331,33 @@ def reader_between_effects(ctx):
     import threading
     threading.excepthook = lambda args: None      # a fault injected into the history writer thread ends that thread: expected, keep stderr readable
 
+    import threading as _th
+    stop_waiting = _th.Event()
+
     def view(app, inv):
         """what a reader sees now: ('value', v) | ('raised', type, args) | ('not-final',)"""
         from pynenc import exceptions as ex
         try:
             reader = app.state_backend.get_invocation(inv.invocation_id)      # a reader has its own invocation object (no status cached by the writer)
             st = app.orchestrator.get_invocation_status(inv.invocation_id)
+            if not st.is_final():
+                # the blocking entry point: asked while the invocation is not final it must not come back with a value
+                import threading
+                box = {}
+                waiter = app.state_backend.get_invocation(inv.invocation_id)
+
+                def ask():
+                    try:
+                        box["v"] = ("value", waiter.result)
+                    except Exception as e:      # noqa: BLE001
+                        box["v"] = ("raised", type(e).__name__)
+                stop_waiting.clear()
+                t = threading.Thread(target=ask, daemon=True)
+                t.start()
+                t.join(0.15)
+                stop_waiting.set()
+                if box.get("v", ("",))[0] == "value":
+                    return ("value-while-" + st.name, box["v"][1], st.name)
             v = reader.get_final_result()
             return ("value", v, st.name)
         except ex.InvocationError:
@@ -251,4 +427,4 @@ def reader_between_effects(ctx):
 
 
 def bounded():
-    return [reader_between_effects]
+    return [reader_between_effects, exception_class_histories]
